@@ -45,6 +45,7 @@ def session(rng, njoin, nops):
     # every node checks its connection both ways (joined directly or through a relay)
     for n in names:
         ops += [f"{n} check_connection 2 F", f"{n} check_connection 2 T"]
+    ops += [f"m check_connection 1 {rng.choice('TF')}"]      # the master is connected by definition
     for _ in range(nops):
         x = rng.random()
         n, o = rng.choice(names), rng.choice(names)
@@ -165,6 +166,9 @@ class C17(PropCheck):
             cs.append((scripted_joiner(rng), "joiner-vs-scripted-responses"))
         for _ in range(6 if tier == "quick" else 20):
             cs.append((self._concrete(forced_release(rng)), "forced-release"))
+        # a master-less mesh object with ID 0 counts as connected, without any traffic (RF24MeshNoMaster.check_connection)
+        cs += [(f"net 2 1 new m master 0 0 ; new z mesh 1 0 ; z check_connection {a} {p} ; m lookup_address 0", "id0-node")
+               for a in (1, 3) for p in "TF"]
         return cs
 
     def nontrivial(self, line, io):
